@@ -31,4 +31,19 @@ let () =
   register "imp" (function [s; out] ->
       ((match import_vstacksecret [] (bytes_of_tok s) with Some _ -> "1" | None -> "0"), out)
     | _ -> failwith "arity");
+  (* QR encoding: matrices are rows separated by ';', entries by ',' ; bits as strings of 0/1 per row *)
+  let zrows t = if t = "_" then [] else List.map zlist_of_tok (String.split_on_char ';' t) in
+  let tok_zrows rows = if rows = [] then "_" else String.concat ";" (List.map tok_of_zlist rows) in
+  let brows t = if t = "_" then [] else List.map (fun r -> if r = "-" then [] else List.init (String.length r) (fun i -> r.[i] = '1')) (String.split_on_char ';' t) in
+  let tok_brows rows = if rows = [] then "_" else String.concat ";" (List.map (fun r -> if r = [] then "-" else String.concat "" (List.map (fun b -> if b then "1" else "0") r)) rows) in
+  register "qcs" (function [ms; w; idx; coins; out] ->
+      (res_tok (fun (cs, rest) -> "ret:" ^ tok_zrows (List.map (List.map fst) cs) ^ ":" ^ tok_brows (List.map (List.map snd) cs)
+                                  ^ (if rest = [] then "" else ":model-left-coins=" ^ string_of_int (List.length rest)))
+         (create_card_secret (zlist_of_tok ms) (nat_of_int (int_of_string w)) (nat_of_int (int_of_string idx)) (bytes_of_tok coins)), out)
+    | _ -> failwith "arity");
+  register "qmc" (function [ms; ys; c; rs; bs; out] ->
+      let keys = List.combine (zlist_of_tok ms) (zlist_of_tok ys) in
+      let cs = List.map2 List.combine (zrows rs) (brows bs) in
+      (res_tok (fun rows -> "ret:" ^ tok_zrows rows) (qmask_card keys (zrows c) cs), out)
+    | _ -> failwith "arity");
   main ()
